@@ -7,6 +7,7 @@ counting requests, not attempts) goes to uri[i mod n].
 import json
 
 from simtz import core
+from simtz import opcodec as oc
 from simtz.runner import rng_for
 
 ID = 'C28'
@@ -30,11 +31,14 @@ ASSUMPTIONS = [
     'failure belong to the same request and must stay on the same node.',
     'A transport exception counts as a failed request.',
 ]
-EXPECTED_PROBES = ['application_touched_client_inputs', 'pool_given_as_bare_string', 'request_from_worker_thread', 'duplicate_pool_entry', 'two_clients_one_uri_list', 'error_then_request', 'exception_then_request', 'transient_exhausted_then_request', 'wrapped_around']
+EXPECTED_PROBES = ['aborted_call_then_request', 'application_touched_client_inputs', 'pool_given_as_bare_string', 'request_from_worker_thread', 'duplicate_pool_entry', 'two_clients_one_uri_list', 'error_then_request', 'exception_then_request', 'transient_exhausted_then_request', 'wrapped_around']
 
-OUTCOMES = ['ok', 's404', 's401', 's400', 'perm500', 'trans_ok', 'trans6', 'exc', 'exc_timeout', 'exc_chunked', 'exc_connect_timeout']
+OUTCOMES = ['ok', 's404', 's401', 's400', 'perm500', 'trans_ok', 'trans6', 'exc', 'exc_timeout', 'exc_chunked', 'exc_connect_timeout', 'abort_interrupt', 'abort_cancelled']
 VIAS = ['get', 'post', 'put', 'delete', 'request', 'shell.header', 'shell.counter', 'shell.inject',
-        'shell.monitor_heads', 'shell.monitor_bootstrapped', 'shell.peer_log_monitor', 'shell.points', 'shell.raw_bytes', 'shell.pending', 'shell.mempool_post']
+        'shell.monitor_heads', 'shell.monitor_bootstrapped', 'shell.peer_log_monitor', 'shell.points', 'shell.raw_bytes', 'shell.pending', 'shell.mempool_post',
+        'get_block_by_hash', 'shell.block_by_hash']
+# a checksum-valid block hash: requests that address a block by hash are ordinary requests for the rotation
+BLOCK_HASH = oc.block_hash(b'c28-some-block')
 
 
 def gen(seed, tier):
@@ -80,6 +84,8 @@ def gen(seed, tier):
 
 
 def execute(scn, want_log=False):
+    import asyncio
+
     import requests
 
     from pytezos.rpc.node import RpcError
@@ -118,6 +124,10 @@ def execute(scn, want_log=False):
             return core.Reply.error('ChunkedEncodingError', 'scripted: truncated response')
         if o == 'exc_connect_timeout':
             return core.Reply.error('ConnectTimeout', 'scripted')
+        if o == 'abort_interrupt':
+            return core.Reply.error('KeyboardInterrupt', 'scripted: the user interrupts a call that hangs')
+        if o == 'abort_cancelled':
+            return core.Reply.error('CancelledError', 'scripted: the surrounding task is cancelled')
         raise core.HarnessError(o)
 
     tr = core.Transport(sim, handler)
@@ -180,6 +190,10 @@ def execute(scn, want_log=False):
                         node.delete('network/connections/p')
                     elif v == 'request':
                         node.request('GET', 'version')
+                    elif v == 'get_block_by_hash':
+                        node.get(f'chains/main/blocks/{BLOCK_HASH}/header')
+                    elif v == 'shell.block_by_hash':
+                        shell.blocks[BLOCK_HASH].header()
                     elif v == 'shell.header':
                         shell.head.header()
                     elif v == 'shell.counter':
@@ -206,6 +220,8 @@ def execute(scn, want_log=False):
                     box['raised'] = e
                 except requests.exceptions.RequestException as e:
                     box['raised'] = e
+                except (KeyboardInterrupt, asyncio.CancelledError) as e:
+                    box['raised'] = e  # the scripted abort of this request (see handler)
                 except (AssertionError, TypeError, ValueError, IndexError, KeyError, AttributeError) as e:
                     box['raised'] = e  # the client broke instead of sending: judged below (no attempt reached any node)
                 except BaseException as e:  # noqa: BLE001  (harness errors / caps raised on the worker thread are re-raised on the main one)
@@ -231,6 +247,8 @@ def execute(scn, want_log=False):
                 bump('error_then_request')
             if prev.startswith('exc'):
                 bump('exception_then_request')
+            if prev.startswith('abort'):
+                bump('aborted_call_then_request')
             if prev == 'trans6':
                 bump('transient_exhausted_then_request')
             if i >= scn['n'] and scn['n'] > 1:
